@@ -9,7 +9,7 @@ import gtree as T           # noqa: E402
 import chem                 # noqa: E402
 
 PROP = "C06"
-DEPS = ["Model/Edge.v", "Gen/Tables.v", "Spec/Iso.v"]
+DEPS = ["Model/Edge.v", "Gen/Tables.v", "Spec/Iso.v", "Gen/Methods.v", "Proofs/MethodsThm.v"]
 KETOSES = {"Neu5Ac": "Neu", "Neu5Gc": "Neu", "Kdo": "Kdo", "Kdn": "Kdn", "Fruf": "Fru", "Neu": "Neu", "Fru": "Fru", "Sor": "Sor", "Tag": "Tag",
            "Psi": "Psi", "Leg": "Leg", "Pse": "Pse", "Aci": "Aci", "Dha": "Dha", "Ko": "Ko"}
 
